@@ -161,8 +161,13 @@ __attribute__((constructor)) static void pdlsim_init(void) {
     const char *p = getenv("PDLSIM_PLAN");
     if (p && *p) {
         char path[512]; strncpy(path, p, sizeof path - 1); path[sizeof path - 1] = 0;
-        unsetenv("PDLSIM_PLAN");
-        unsetenv("LD_PRELOAD");
+        /* PDLSIM_INHERIT=1: keep the variables so that child processes (cargo -> rustc ->
+           proc-macro host) run under the same plan; used by tier D only */
+        const char *inh = getenv("PDLSIM_INHERIT");
+        if (!(inh && *inh == '1')) {
+            unsetenv("PDLSIM_PLAN");
+            unsetenv("LD_PRELOAD");
+        }
         load_plan(path);
     }
 }
